@@ -9,6 +9,11 @@ pub fn dispatch(ctx: &Ctx) -> i32 {
         "C01" => e1::check_file_prop(ctx, e1::FileProp::C01),
         "C15" => e1::check_file_prop(ctx, e1::FileProp::C15),
         "C08" => e1::check_c08(ctx),
+        "C02" => e1::check_file_prop(ctx, e1::FileProp::C02),
+        "C03" => timing::check_c03(ctx),
+        "C04" => contract::check(ctx, contract::Which::C04),
+        "C05" => contract::check(ctx, contract::Which::C05),
+        "C06" => contract::check(ctx, contract::Which::C06),
         p => {
             eprintln!("no check for {p}");
             2
@@ -19,9 +24,12 @@ pub fn dispatch(ctx: &Ctx) -> i32 {
 pub fn replay(prop: &str, case: &serde_json::Value) -> i32 {
     match case["engine"].as_str() {
         Some("E1") => e1::replay(prop, case),
+        Some("contract") => contract::replay(prop, case),
         e => {
             eprintln!("unknown engine {e:?}");
             2
         }
     }
 }
+pub mod timing;
+pub mod contract;
